@@ -34,7 +34,8 @@ theorem C04_shape_stack (f : Form) (c : Cfg) (xs : List Val) :
   rw [unmarshalElem, unmarshalElems_map]
 
 /-- … a Condition becomes the four-entry row `[CONDITION, keyword, operator, expression]`, a Stack
-in expression position being expanded the same way and any other expression passed through … -/
+or a Condition in expression position being expanded the same way - recursively, to any depth - and
+any other expression passed through … -/
 theorem C04_shape_cond (f : Form) (c : Cfg) (kw : Text) (op : Op) (ex : Val) :
     unmarshalElem (.cnd f c kw op ex) = .anys [strV conditionLabel, strV kw, .opv op, unmarshalExpr ex] := by
   rw [unmarshalElem]
@@ -43,8 +44,26 @@ theorem C04_shape_expr_stack (f : Form) (c : Cfg) (xs : List Val) :
     unmarshalExpr (.stk f c xs) = .anys (strV c.kindText :: xs.map unmarshalElem) := by
   rw [unmarshalExpr, unmarshalElems_map]
 
-theorem C04_shape_expr_other (v : Val) (h : v.isStack = false) : unmarshalExpr v = v := by
-  cases v <;> first | rfl | simp [Val.isStack] at h
+/-- a Condition held as a Condition's expression (any form) is expanded to its own four-entry row, exactly as it
+would be as an element of a Stack; the rule applies again to *its* expression (repair F43: the code used to hand the
+live Condition through) -/
+theorem C04_shape_expr_cond (f : Form) (c : Cfg) (kw : Text) (op : Op) (ex : Val) :
+    unmarshalExpr (.cnd f c kw op ex) = .anys [strV conditionLabel, strV kw, .opv op, unmarshalExpr ex] := by
+  rw [unmarshalExpr]
+
+/-- in expression position and in element position the same entry is produced, for every value -/
+theorem C04_shape_expr_eq_elem : ∀ v : Val, unmarshalExpr v = unmarshalElem v
+  | .stk f c xs => by rw [unmarshalExpr, unmarshalElem]
+  | .cnd f c kw op ex => by rw [unmarshalExpr, unmarshalElem]
+  | .nil => rfl
+  | .leaf _ => rfl
+  | .zstk _ => rfl
+  | .zcnd _ => rfl
+  | .anys _ => by simp only [unmarshalExpr, unmarshalElem]
+  | .opv _ => rfl
+
+theorem C04_shape_expr_other (v : Val) (h : v.isStack = false) (hc : v.isCond = false) : unmarshalExpr v = v := by
+  cases v <;> first | rfl | simp [Val.isStack, Val.isCond] at h hc
 
 /-- … and everything else — nil included — is passed through unchanged. -/
 theorem C04_shape_other (v : Val) (hs : v.isStack = false) (hc : v.isCond = false) : unmarshalElem v = v := by
@@ -78,18 +97,19 @@ def domElems : List Val → Bool
   | x :: rest => domElem x && domElems rest
 
 /-- a Condition expression in the domain: a primitive leaf other than the empty string, a Stack in
-the domain, or a Condition (which is passed through as it is, whatever it holds) -/
+the domain, or a Condition in the domain (accepted operator, expression in the domain - to any depth:
+the reconstruction rebuilds it, so it is inside the round trip like any other node) -/
 def domExpr : Val → Bool
   | .leaf (.str s) => !s.isEmpty
   | .leaf l => primLeaf l
   | .stk _ c xs => decide (RealKind c.kind) && domElems xs
-  | .cnd _ _ _ _ _ => true
+  | .cnd _ _ _ op ex => Cnd.opAccepted op && domExpr ex
   | _ => false
 end
 
 /-- the domain of C04: AND/OR/NOT/LIST/BASIC stacks at every level (empty ones included), nil and
 primitive leaves, Conditions with an accepted operator whose expression is a primitive, a Stack or a
-Condition. No `[]any`, no bare operator, no zero instance, no opaque value as element. Capacity,
+Condition of the same domain (Condition in Condition to any depth, Stacks below them). No `[]any`, no bare operator, no zero instance, no opaque value as element. Capacity,
 options, alias forms and every other configuration field are unrestricted. -/
 def Stk.Dom (s : Stk) : Prop := RealKind s.cfg.kind ∧ domElems s.xs = true
 
@@ -187,22 +207,32 @@ theorem roundtrip_aux (x : Val) :
     unfold strV at hrow
     rw [hrow]
     rfl
-  | case5 v hs =>
+  | case5 f c kw' op' ex' ih =>
+    rename_i hd kw op
+    rw [domExpr, Bool.and_eq_true] at hd
+    have hin := ih hd.2 kw' op'
+    rw [unmarshalExpr, skelExpr]
+    unfold strV at hin ⊢
+    rw [marshalList_str, classify_conditionLabel]
+    simp only []
+    rw [hin]
+    rfl
+  | case6 v hs hc =>
     rename_i hd kw op
     have hne : ∀ tv, v ≠ .anys tv := by
       intro tv h; subst h; simp [domExpr] at hd
     have h1 : unmarshalExpr v = v := by
-      cases v <;> first | rfl | exact (hs _ _ _ rfl).elim
+      cases v <;> first | rfl | exact (hs _ _ _ rfl).elim | exact (hc _ _ _ _ _ rfl).elim
     have h2 : skelExpr v = v := by
-      cases v <;> first | rfl | exact (hs _ _ _ rfl).elim
+      cases v <;> first | rfl | exact (hs _ _ _ rfl).elim | exact (hc _ _ _ _ _ rfl).elim
     rw [h1, h2]
     unfold strV
     rw [marshalList_str, classify_conditionLabel]
     cases v <;> first | rfl | exact (hne _ rfl).elim
-  | case6 =>
+  | case7 =>
     rw [unmarshalElems, skelElems, marshalElems]
     exact ⟨rfl, rfl⟩
-  | case7 x rest ihx ihr =>
+  | case8 x rest ihx ihr =>
     rename_i hd
     rw [domElems, Bool.and_eq_true] at hd
     obtain ⟨h1, h2⟩ := ihx hd.1 (unmarshalElems rest)
@@ -280,12 +310,24 @@ theorem C04_structure_nil : skelElem .nil = .nil := rfl
 theorem C04_structure_other (v : Val) (hs : v.isStack = false) (hc : v.isCond = false) : skelElem v = v := by
   cases v <;> first | rfl | (simp [Val.isStack, Val.isCond] at hs hc)
 
-/-- a Stack in expression position is rebuilt, any other expression is the very same value -/
+/-- a Stack in expression position is rebuilt, a Condition in expression position is rebuilt (below:
+`C04_structure_expr_cond`), any other expression is the very same value -/
 theorem C04_structure_expr_stack (f : Form) (c : Cfg) (xs : List Val) :
     skelExpr (.stk f c xs) = .stk .native { kind := c.kind } (xs.map skelElem) := by
   rw [skelExpr, skelElems_map]
-theorem C04_structure_expr_other (v : Val) (hs : v.isStack = false) : skelExpr v = v := by
-  cases v <;> first | rfl | (simp [Val.isStack] at hs)
+theorem C04_structure_expr_other (v : Val) (hs : v.isStack = false) (hc : v.isCond = false) : skelExpr v = v := by
+  cases v <;> first | rfl | (simp [Val.isStack, Val.isCond] at hs hc)
+
+/-- in expression position and in element position the same value is rebuilt -/
+theorem C04_structure_expr_eq_elem : ∀ v : Val, skelExpr v = skelElem v
+  | .stk f c xs => by rw [skelExpr, skelElem]
+  | .cnd f c kw op ex => by rw [skelExpr, skelElem]
+  | .nil => rfl
+  | .leaf _ => rfl
+  | .zstk _ => rfl
+  | .zcnd _ => rfl
+  | .anys _ => by simp only [skelExpr, skelElem]
+  | .opv _ => rfl
 
 /-- the error `Cond` records on the rebuilt Condition: the keyword is empty, or the operator is a
 built-in comparison operator whose code is outside 1..6 -/
@@ -325,7 +367,7 @@ theorem skelExpr_accepted (ex : Val) (he : domExpr ex = true) (c : Cnd) (hn : c.
   | leaf l =>
     cases l <;> simp_all [domExpr, skelExpr, Cnd.exAccepted, Val.isNil, Val.isStack, primLeaf]
   | stk f c' xs => simp_all [domExpr, skelExpr, Cnd.exAccepted, Val.isNil, Val.isStack]
-  | cnd f c' kw op e => simp_all [domExpr, skelExpr, Cnd.exAccepted, Val.isNil, Val.isStack]
+  | cnd f c' kw op e => simp_all [domExpr, skelExpr, cndVal, Cnd.exAccepted, Val.isNil, Val.isStack]
   | _ => simp [domExpr] at he
 
 /-- **C04 (structure: Conditions).** A Condition of the domain comes back as a native Condition
@@ -351,6 +393,16 @@ theorem C04_structure_cond (f : Form) (c : Cfg) (kw : Text) (op : Op) (ex : Val)
       simp only [hx.2, Bool.false_eq_true, if_false]
       by_cases hb : Gen.cond_op_bogus { assert := code } = true <;> simp only [hb, if_true, if_false, Bool.false_eq_true]
     | user id s c' => simp only [hx.2, Bool.false_eq_true, if_false]
+
+/-- **C04 (structure: a Condition held as a Condition's expression).** It comes back as an independent native
+Condition with the same keyword, the same operator and the reconstructed expression - the rule applies again to that
+expression, so Condition-in-Condition chains of any depth, with Stacks below them, are rebuilt node by node (repair
+F43; before it the live inner Condition travelled through `Unmarshal` and `Marshal` as an opaque value). -/
+theorem C04_structure_expr_cond (f : Form) (c : Cfg) (kw : Text) (op : Op) (ex : Val)
+    (ho : Cnd.opAccepted op = true) (he : domExpr ex = true) :
+    skelExpr (.cnd f c kw op ex) =
+      .cnd .native { kind := Gen.kind_cond, err := condErr kw op } kw op (skelExpr ex) := by
+  rw [C04_structure_expr_eq_elem]; exact C04_structure_cond f c kw op ex ho he
 
 /-! ## 5. unmarshalling the reconstruction gives the first slice again, up to label case -/
 
@@ -399,13 +451,20 @@ theorem fixpoint_aux (x : Val) :
     rw [skelExpr, unmarshalExpr, unmarshalExpr]
     unfold strV Cfg.kindText
     rw [upperLabels_row, upperLabels_row, ih hd.2, upper_foldValue _ c.cfold _ hd.1]
-  | case5 v hs =>
+  | case5 f c kw op ex ih =>
+    rename_i hd
+    rw [domExpr, Bool.and_eq_true] at hd
+    rw [C04_structure_expr_cond f c kw op ex hd.1 hd.2, unmarshalExpr, unmarshalExpr]
+    unfold strV
+    rw [upperLabels_row, upperLabels_row]
+    simp only [upperLabelsL, ih hd.2]
+  | case6 v hs hc =>
     rename_i hd
     have : skelExpr v = v := by
-      cases v <;> first | rfl | exact (hs _ _ _ rfl).elim
+      cases v <;> first | rfl | exact (hs _ _ _ rfl).elim | exact (hc _ _ _ _ _ rfl).elim
     rw [this]
-  | case6 => rfl
-  | case7 x rest ihx ihr =>
+  | case7 => rfl
+  | case8 x rest ihx ihr =>
     rename_i hd
     rw [domElems, Bool.and_eq_true] at hd
     rw [skelElems, unmarshalElems, unmarshalElems, upperLabelsL, upperLabelsL, ihx hd.1, ihr hd.2]
@@ -479,6 +538,49 @@ example : upperLabels (.anys exTree.skelStk.unmarshal) = upperLabels (.anys exTr
 /-- the label case does differ here: the original folds (`and`), the reconstruction does not (`AND`) -/
 example : exTree.skelStk.unmarshal.head? = some (strV "AND".toList) ∧ exTree.unmarshal.head? = some (strV "and".toList) :=
   ⟨rfl, rfl⟩
+
+/-- Condition in Condition in Condition (native, alias, pointer), an alias-with-String LIST below the innermost one which
+holds, again, a Condition whose expression is a Condition: every node is expanded by `Unmarshal` (nothing live is left in
+the slice) and rebuilt by `Marshal` as an independent native node (repair F43) -/
+def exCic : Stk :=
+  ⟨{ kind := Gen.kind_and },
+   [ .cnd .native { kind := Gen.kind_cond } "a".toList (.cmp 1)
+       (.cnd .alias { kind := Gen.kind_cond } "b".toList (.cmp 2)
+         (.cnd .ptr { kind := Gen.kind_cond } "c".toList (.cmp 3)
+           (.stk .aliasS { kind := Gen.kind_list }
+             [ .leaf (.str "x".toList), .leaf (.int 3),
+               .cnd .native { kind := Gen.kind_cond } "d".toList (.cmp 4)
+                 (.cnd .aliasS { kind := Gen.kind_cond } "e".toList (.cmp 5) (.leaf (.int 1))) ]))) ]⟩
+
+example : exCic.Dom := by decide
+
+example : exCic.unmarshal =
+    [ strV "AND".toList,
+      .anys [strV "CONDITION".toList, strV "a".toList, .opv (.cmp 1),
+        .anys [strV "CONDITION".toList, strV "b".toList, .opv (.cmp 2),
+          .anys [strV "CONDITION".toList, strV "c".toList, .opv (.cmp 3),
+            .anys [strV "LIST".toList, strV "x".toList, .leaf (.int 3),
+              .anys [strV "CONDITION".toList, strV "d".toList, .opv (.cmp 4),
+                .anys [strV "CONDITION".toList, strV "e".toList, .opv (.cmp 5), .leaf (.int 1)]]]]]] ] := by
+  rfl
+
+example : exCic.skelStk =
+    ⟨{ kind := Gen.kind_and },
+     [ .cnd .native { kind := Gen.kind_cond } "a".toList (.cmp 1)
+         (.cnd .native { kind := Gen.kind_cond } "b".toList (.cmp 2)
+           (.cnd .native { kind := Gen.kind_cond } "c".toList (.cmp 3)
+             (.stk .native { kind := Gen.kind_list }
+               [ .leaf (.str "x".toList), .leaf (.int 3),
+                 .cnd .native { kind := Gen.kind_cond } "d".toList (.cmp 4)
+                   (.cnd .native { kind := Gen.kind_cond } "e".toList (.cmp 5) (.leaf (.int 1))) ]))) ]⟩ := by
+  rfl
+
+example : marshalInto (fun _ _ => none) none exCic.unmarshal = (some exCic.skelStk, none) :=
+  C04_roundtrip _ _ (by decide)
+example : marshalInto (fun _ _ => none) none [.anys exCic.unmarshal] = (some exCic.skelStk, none) :=
+  C04_roundtrip_enveloped _ _ (by decide)
+example : upperLabels (.anys exCic.skelStk.unmarshal) = upperLabels (.anys exCic.unmarshal) :=
+  C04_fixpoint _ (by decide)
 
 /-- outside the domain the statement is false: an element that is itself a `[]any` row is decoded -/
 example : ¬ (⟨{ kind := Gen.kind_list }, [.anys [strV "OR".toList]]⟩ : Stk).Dom := by decide
